@@ -60,29 +60,23 @@ let cmd_starts r =
   let bs = rd_list rd_block r in
   pr_list tok_of_q (starts { qnum = Z0; qden = XH } bs)
 
-(* kspace.full raster <kblocks> -> t_exc | t_ref | t_adc | kx | ky | kz   (k at the ADC sample times) *)
+(* kspace.full raster <kblocks> <list t> -> t_exc | t_ref | t_adc | kx | ky | kz (k at the ADC sample times)
+   | kx | ky | kz at the extra times t *)
 let cmd_kfull r =
   let raster = rd_q r in
   let bs = rd_list rd_kblock r in
+  let ts = rd_list rd_q r in
   let evs = rf_events { qnum = Z0; qden = XH } bs in
   let te = times_of Exc evs and tr = times_of Ref evs in
   let ta = adc_times { qnum = Z0; qden = XH } bs in
   String.concat " | "
     ([pr_list tok_of_q te; pr_list tok_of_q tr; pr_list tok_of_q ta]
-     @ List.map (fun ch -> pr_list tok_of_q (kspace_adc raster bs ch)) chans)
-
-(* kspace.at raster <kblocks> <list t> -> kx | ky | kz at the given times (implementation recurrence)
-   followed by the same from the specification fold spec_k *)
-let cmd_kat r =
-  let raster = rd_q r in
-  let bs = rd_list rd_kblock r in
-  let ts = rd_list rd_q r in
-  String.concat " | " (List.map (fun ch -> pr_list tok_of_q (kspace_at raster bs ch ts)) chans)
+     @ List.map (fun ch -> pr_list tok_of_q (kspace_at raster bs ch ta)) chans
+     @ List.map (fun ch -> pr_list tok_of_q (kspace_at raster bs ch ts)) chans)
 
 let () =
   Driver.register "export.wave" cmd_wave;
   Driver.register "export.range" cmd_range;
   Driver.register "export.render" cmd_render;
   Driver.register "export.starts" cmd_starts;
-  Driver.register "kspace.full" cmd_kfull;
-  Driver.register "kspace.at" cmd_kat
+  Driver.register "kspace.full" cmd_kfull
